@@ -850,4 +850,228 @@ theorem localDeclLocations_rel (sc : String) (fr : Nat) : ∀ (ds : List ADecl) 
         · exact Or.inl (Or.inr hkm)
         · exact Or.inr ⟨m, hm, by rw [keyOf_modifySym]; exact hkm⟩
 
+theorem localDeclLocations_inv {names : String → List String → Prop} (sc : String) (fr : Nat) :
+    ∀ (ds : List ADecl) (c : Nat) (t t' : SymTab) (n : Nat), TblInv names t →
+      localDeclLocations sc fr ds c t = .ok (t', n) → TblInv names t' := by
+  intro ds
+  induction ds with
+  | nil =>
+    intro c t t' n h he
+    simp only [localDeclLocations, pure, Except.pure, Except.ok.injEq, Prod.mk.injEq] at he
+    rw [← he.1]; exact h
+  | cons d ds ih =>
+    intro c t t' n h he
+    unfold localDeclLocations at he
+    cases d with
+    | array m e => simp at he
+    | val m e =>
+      simp only at he
+      exact ih _ _ _ _ (h.modifySym sc _ (fun s => { s with stackOffset := -(c : Int), frame := fr }) (fun _ => rfl)) he
+    | var m =>
+      simp only at he
+      exact ih _ _ _ _ (h.modifySym sc _ (fun s => { s with stackOffset := -(c : Int), frame := fr }) (fun _ => rfl)) he
+
+theorem keyOf_cases (t : SymTab) (scope n : String) (k : SymKey) (h : t.keyOf scope n = some k) :
+    (k = (scope, n) ∨ k = ("", n)) ∧ (t.find? k).isSome = true := by
+  unfold SymTab.keyOf at h
+  cases h1 : t.find? (scope, n) with
+  | some a =>
+    rw [h1] at h
+    simp only [Option.some.injEq] at h
+    subst h
+    exact ⟨Or.inl rfl, by rw [h1]; rfl⟩
+  | none =>
+    rw [h1] at h
+    simp only at h
+    split at h
+    · cases h2 : t.find? ("", n) with
+      | some a =>
+        rw [h2] at h
+        simp only [Option.some.injEq] at h
+        subst h
+        exact ⟨Or.inr rfl, by rw [h2]; rfl⟩
+      | none => rw [h2] at h; simp at h
+    · simp at h
+
+/-- The relation between the two runs of the `CodeGen` walk. -/
+structure SRel (names : String → List String → Prop) (st1 st2 : CGState) : Prop where
+  tbl : TRel NoD st1.tbl st2.tbl
+  inv : TblInv names st1.tbl
+  gs : st1.gs = st2.gs
+  go : st1.globalsOffset = st2.globalsOffset
+  frames : st1.frames = st2.frames
+  instrs : st1.instrs = st2.instrs
+
+theorem cgLocalVars_rel {names : String → List String → Prop} (sc : String) : ∀ (ds : List ADecl) (t1 t2 : SymTab) (gs : GS),
+    TRel NoD t1 t2 → TblInv names t1 →
+    (cgLocalVars sc ds t1 gs).2 = (cgLocalVars sc ds t2 gs).2 ∧
+    TRel NoD (cgLocalVars sc ds t1 gs).1 (cgLocalVars sc ds t2 gs).1 ∧ TblInv names (cgLocalVars sc ds t1 gs).1 := by
+  intro ds
+  induction ds with
+  | nil => intro t1 t2 gs h hi; exact ⟨rfl, h, hi⟩
+  | cons d ds ih =>
+    intro t1 t2 gs h hi
+    unfold cgLocalVars
+    cases d with
+    | val n e => exact ih t1 t2 gs h hi
+    | array n e => exact ih t1 t2 gs h hi
+    | var n =>
+      simp only
+      exact ih _ _ _
+        (h.modifySym sc n _ (fun a b hs => ⟨hs.1, hs.2.1, hs.2.2.1, hs.2.2.2.1, hs.2.2.2.2.1, hs.2.2.2.2.2.1, rfl⟩)
+          (fun k' hd _ => hd) (fun _ _ hd => absurd hd id))
+        (hi.modifySym sc n _ (fun _ => rfl))
+
+theorem cgGlobals_rel {names : String → List String → Prop} : ∀ (ds : List ADecl) (st1 st2 : CGState), SRel names st1 st2 →
+    ERel (SRel names) (cgGlobals ds st1) (cgGlobals ds st2) := by
+  intro ds
+  induction ds with
+  | nil => intro st1 st2 h; exact h
+  | cons d ds ih =>
+    intro st1 st2 h
+    unfold cgGlobals
+    cases d with
+    | val n e => exact ih st1 st2 h
+    | var n =>
+      simp only
+      rcases lookup_rel_cases h.tbl "" n with ⟨a, b, h1, h2, _⟩ | ⟨e, h1, h2⟩
+      · rw [h1, h2]
+        simp only [bind, Except.bind]
+        apply ih
+        rw [← h.gs]
+        exact ⟨h.tbl.modifySym "" n _ (fun a b hs => ⟨hs.1, hs.2.1, hs.2.2.1, hs.2.2.2.1, hs.2.2.2.2.1, hs.2.2.2.2.2.1, rfl⟩)
+            (fun k' hd _ => hd) (fun _ _ hd => absurd hd id),
+          h.inv.modifySym "" n _ (fun _ => rfl), rfl, h.go, h.frames, h.instrs⟩
+      · rw [h1, h2]
+        simp only [bind, Except.bind, ERel]
+    | array n e =>
+      simp only
+      rcases lookup_rel_cases h.tbl "" n with ⟨a, b, h1, h2, _⟩ | ⟨e', h1, h2⟩
+      · rw [h1, h2]
+        simp only [bind, Except.bind]
+        cases hsz : arraySize n e with
+        | error er => simp only [ERel]
+        | ok size =>
+          simp only
+          apply ih
+          rw [← h.gs, ← h.go]
+          exact ⟨h.tbl.modifySym "" n _ (fun a b hs => ⟨hs.1, hs.2.1, hs.2.2.1, hs.2.2.2.1, hs.2.2.2.2.1, hs.2.2.2.2.2.1, rfl⟩)
+              (fun k' hd _ => hd) (fun _ _ hd => absurd hd id),
+            h.inv.modifySym "" n _ (fun _ => rfl), rfl, rfl, h.frames, h.instrs⟩
+      · rw [h1, h2]
+        simp only [bind, Except.bind, ERel]
+
+/-- A key is present iff `keyOf` of its own scope and name returns it. -/
+theorem find?_isSome_keyOf (t : SymTab) (k : SymKey) : (t.find? k).isSome = (t.keyOf k.1 k.2 == some k) := by
+  obtain ⟨k1, k2⟩ := k
+  unfold SymTab.keyOf
+  simp only
+  cases hf : t.find? (k1, k2) with
+  | some x => simp
+  | none =>
+    simp only [Option.isSome_none]
+    by_cases hk1 : k1 ≠ ""
+    · rw [if_pos hk1]
+      cases t.find? ("", k2) with
+      | none => rfl
+      | some y =>
+        simp only
+        have : ¬ ((("", k2) : SymKey) = (k1, k2)) := by
+          intro e
+          apply hk1
+          exact (congrArg Prod.fst e).symm
+        simp [this]
+    · rw [if_neg hk1]; rfl
+
+theorem TRel.lkRel {D : SymKey → Prop} {t1 t2 : SymTab} (h : TRel D t1 t2) (sc : String)
+    (hscope : ∀ k a, t1.find? k = some a → a.scope = k.1)
+    (hD : ∀ n, (t1.find? (sc, n)).isSome = true → sc ≠ "" → t1.keyOf sc n = some (sc, n) → D (sc, n)) :
+    LkRel sc t1 t2 := by
+  intro n
+  rcases h.lookup sc n with ⟨k, a, b, hk, h1, h2, h3, h4⟩ | ⟨_, h1, h2⟩
+  · refine Or.inl ⟨a, b, h1, h2, (h.rel k a b h3 h4).1, fun hne => ?_⟩
+    have hsk := hscope k a h3
+    obtain ⟨hkc, _⟩ := keyOf_cases t1 sc n k hk
+    rcases hkc with rfl | rfl
+    · have hsc : a.scope = sc := hsk
+      exact (h.rel _ a b h3 h4).2 (hD n (by rw [h3]; rfl) (by rw [← hsc]; exact hne) hk)
+    · exact absurd hsk hne
+  · exact Or.inr ⟨_, h1, h2⟩
+
+theorem cgProc_rel {names : String → List String → Prop} (i : Nat) (p : AProc) (st1 st2 : CGState) (h : SRel names st1 st2)
+    (hkeys : ∀ n, (st1.tbl.find? (p.name, n)).isSome = true → p.name ≠ "" →
+      n ∈ p.formals.map X.Formal.name ++ p.locals.map ADecl.name) :
+    ERel (SRel names) (cgProc i p st1) (cgProc i p st2) := by
+  unfold cgProc
+  rcases (lookup_rel_cases h.tbl "" p.name).symm with ⟨e, h1, h2⟩ | ⟨a, b, h1, h2, _⟩
+  · rw [h1, h2]; simp only [bind, Except.bind, ERel]
+  rw [h1, h2]
+  simp only [bind, Except.bind]
+  -- the symbol of the procedure itself
+  have h0 : TRel NoD (modifySym st1.tbl "" p.name fun s => { s with frame := i })
+      (modifySym st2.tbl "" p.name fun s => { s with frame := i }) :=
+    h.tbl.modifySym "" p.name _ (fun a b hs => ⟨hs.1, hs.2.1, hs.2.2.1, hs.2.2.2.1, hs.2.2.2.2.1, rfl, hs.2.2.2.2.2.2⟩)
+      (fun k' hd _ => hd) (fun _ _ hd => absurd hd id)
+  have i0 : TblInv names (modifySym st1.tbl "" p.name fun s => { s with frame := i }) :=
+    h.inv.modifySym "" p.name _ (fun _ => rfl)
+  obtain ⟨hF, kF⟩ := formalLocations_rel p.name i p.formals
+    (1 + ((if p.isFunc then FB_PARAM_OFFSET_FUNC else FB_PARAM_OFFSET_PROC : Nat) : Int)) NoD _ _ h0
+  have iF := formalLocations_inv (names := names) p.name i p.formals
+    (1 + ((if p.isFunc then FB_PARAM_OFFSET_FUNC else FB_PARAM_OFFSET_PROC : Nat) : Int)) _ i0
+  have hL := localDeclLocations_rel p.name i p.locals 0 _ _ _ hF
+  revert hL
+  cases hl1 : localDeclLocations p.name i p.locals 0 (formalLocations p.name i p.formals
+      (1 + ((if p.isFunc then FB_PARAM_OFFSET_FUNC else FB_PARAM_OFFSET_PROC : Nat) : Int))
+      (modifySym st1.tbl "" p.name fun s => { s with frame := i })) with
+  | error e1 =>
+    intro hL
+    cases hl2 : localDeclLocations p.name i p.locals 0 (formalLocations p.name i p.formals
+        (1 + ((if p.isFunc then FB_PARAM_OFFSET_FUNC else FB_PARAM_OFFSET_PROC : Nat) : Int))
+        (modifySym st2.tbl "" p.name fun s => { s with frame := i })) with
+    | error e2 => rw [hl2] at hL; simp only [ERel] at hL ⊢; exact hL
+    | ok v => rw [hl2] at hL; exact absurd hL id
+  | ok r1 =>
+    intro hL
+    cases hl2 : localDeclLocations p.name i p.locals 0 (formalLocations p.name i p.formals
+        (1 + ((if p.isFunc then FB_PARAM_OFFSET_FUNC else FB_PARAM_OFFSET_PROC : Nat) : Int))
+        (modifySym st2.tbl "" p.name fun s => { s with frame := i })) with
+    | error e2 => rw [hl2] at hL; exact absurd hL id
+    | ok r2 =>
+      rw [hl2] at hL
+      obtain ⟨tbl2a, nl⟩ := r1
+      obtain ⟨tbl2b, nl'⟩ := r2
+      obtain ⟨hn, hT2, kL⟩ := hL
+      simp only at hn hT2 kL
+      subst hn
+      simp only
+      have i2 := localDeclLocations_inv (names := names) p.name i p.locals 0 _ tbl2a nl iF hl1
+      -- lookups from the scope of the procedure agree, offsets included
+      have hkeep : ∀ k, (tbl2a.find? k).isSome = (st1.tbl.find? k).isSome := by
+        intro k
+        have e1 : ∀ scope n, tbl2a.keyOf scope n = st1.tbl.keyOf scope n := by
+          intro scope n
+          rw [kL, kF, keyOf_modifySym]
+        rw [find?_isSome_keyOf, find?_isSome_keyOf, e1]
+      have hlk : LkRel p.name tbl2a tbl2b := by
+        apply hT2.lkRel p.name i2.scope
+        intro n hpres hne hk
+        have hin := hkeys n (by rw [← hkeep]; exact hpres) hne
+        rcases List.mem_append.mp hin with hf | hl
+        · exact Or.inl (Or.inr ⟨n, hf, by rw [← kF, ← kL]; exact hk⟩)
+        · exact Or.inr ⟨n, hl, by rw [← kL]; exact hk⟩
+      have hgen := congrFun (genStmt_rel tbl2a tbl2b p.name i (takeLabel st1.gs).1 hlk p.body)
+        { (takeLabel st1.gs).2 with offset := nl, size := nl }
+      rw [← h.gs]
+      simp only [StateT.run]
+      rw [← hgen]
+      cases hg : genStmt { tbl := tbl2a, scope := p.name, frame := i, exitLabel := (takeLabel st1.gs).1 } p.body
+          { (takeLabel st1.gs).2 with offset := nl, size := nl } with
+      | error eg => simp only [ERel]
+      | ok v =>
+        obtain ⟨body, gs2⟩ := v
+        simp only [pure, Except.pure, ERel]
+        obtain ⟨c1, c2, c3⟩ := cgLocalVars_rel (names := names) p.name p.locals tbl2a tbl2b gs2
+          (hT2.mono (fun k hk => absurd hk id)) i2
+        exact ⟨c2, c3, c1, h.go, by simp only; rw [h.frames], by simp only; rw [h.instrs]⟩
+
 end Hex.Xcmp
